@@ -168,14 +168,25 @@ func c17Reduce(cs c17Case) c17Case {
 
 // Run is the C17 check.
 func Run(c *core.Ctx) {
-	c.Rule = "cases = (initial document, sequence of LSP content changes, API) checked after every step against a byte-splice reference; exhaustive part: every document of length<=6 over {a,LF} x every ordered (start,end) with lines 0..L+1 and characters 0..maxlen+1 x 7 replacement texts + full replace, through Document.Apply and DocumentContents.Apply; non-trivial = the change carries a range (not a whole-document replacement); distinct by (doc,range,text,api)"
+	c.Rule = "cases = (initial document, sequence of LSP content changes, API) checked after every step against a byte-splice reference; exhaustive part: every document of length<=6 over {a,LF} x every ordered (start,end) with lines 0..L+1 and characters 0..maxlen+1 x 7 replacement texts + full replace, through Document.Apply and DocumentContents.Apply; server part: random sessions of didOpen (documents the parser accepts and half-typed ones it refuses) / didChange with 1-3 content changes / didClose+reopen through the real proxy.Server with a recording stand-in for gopls, checking after every notification the server copy against the reference and, when the buffer is a valid template, the Go text handed to gopls against generating from the buffer; non-trivial = the change carries a range (not a whole-document replacement); distinct by (doc,range,text,api)"
 	c.Assume("positions are byte offsets within a line (the server negotiates no position encoding); documents are ASCII as the property's alphabet {letter, newline} states")
 	c.Assume("ranges satisfy start<=end as LSP requires of clients")
 	if c.ReplayFile != "" {
-		var cs c17Case
-		c.LoadReplay(&cs)
+		var both struct {
+			c17Case
+			Ops []c17SrvOp
+		}
+		c.LoadReplay(&both)
 		c.Eval(1)
 		c.NontrivialN(2)
+		if len(both.Ops) > 0 {
+			sc := c17SrvCase{Ops: both.Ops}
+			if m, _ := c17RunServer(sc, nil); m != "" {
+				c.Violate(c17SrvKey(sc), m, sc)
+			}
+			return
+		}
+		cs := both.c17Case
 		if m := c17Run(cs); m != "" {
 			c.Violate(c17Key(cs), m, cs)
 		}
@@ -303,6 +314,8 @@ func Run(c *core.Ctx) {
 		}
 	}
 	c.Eval(steps)
+	// ---- whole notifications through proxy.Server (didOpen / didChange / didClose)
+	c17ServerSessions(c, func(key, msg string, replay any) { c.Violate(key, msg, replay) })
 	c.Set("random_sequences", nseq)
 	c.Set("random_edit_steps", steps)
 }
